@@ -766,3 +766,25 @@ Qed.
 Lemma history_then_apply_lemma mws o ops pt w m :
   call pt w (fst (fst (hist_run mws o ops))) m = call pt w o m.
 Proof. rewrite history_lemma. reflexivity. Qed.
+
+(* a ReactionSystem one of whose members no longer has the system's basis never returns normally *)
+Lemma mixed_basis_lemma b ps : forall m, Exists (fun p => fst p <> b) ps ->
+  snd (react_parts b ps m) = Some ERuntime.
+Proof.
+  induction ps as [|[pb s] t IH]; intros m E; [inversion E|]. simpl.
+  destruct (Bool.eqb pb b) eqn:Q.
+  - apply IH. inversion E as [? ? H|? ? H]; subst; auto.
+    simpl in H. apply Bool.eqb_prop in Q. contradiction.
+  - reflexivity.
+Qed.
+
+Lemma mixed_basis_call_lemma w b ps mol : Exists (fun p => fst p <> b) ps ->
+  fst (call_stream w (System b ps) mol) = Some ERuntime.
+Proof.
+  intros E. unfold call_stream, via_mass, process. simpl.
+  destruct b; simpl.
+  - assert (H := mixed_basis_lemma true ps (to_mass w mol) E).
+    destruct (react_parts true ps (to_mass w mol)) as [v e]. simpl in H. subst. reflexivity.
+  - assert (H := mixed_basis_lemma false ps mol E).
+    destruct (react_parts false ps mol) as [v e]. simpl in H. subst. reflexivity.
+Qed.
